@@ -17,6 +17,7 @@ PairsOK(obs, exp) == Len(obs) = Len(exp) /\ \A j \in 1..Len(exp) : obs[j][1] = S
 TxOK(o, e) ==
   /\ ~o.dead /\ o.rp = 5 /\ o.sp = 5
   /\ o.method = Some(e.method) /\ o.uri = Some(e.uri) /\ o.protocol = Some(e.protocol)
+  /\ o.method_number = e.method_number /\ o.protocol_number = e.protocol_number /\ o.res_protocol_number = e.res_protocol_number
   /\ HdrOK(o.req_headers, e.req_headers)
   /\ o.hostname = e.hostname /\ o.port = e.port
   /\ o.parsed_uri_raw.scheme = e.scheme /\ o.parsed_uri_raw.username = e.user /\ o.parsed_uri_raw.password = e.pass
